@@ -3,6 +3,12 @@
 import json
 TECH = "SMT-based bounded symbolic execution of go/ssa (z3 4.8.12 / 5.1.0), counterexamples replayed natively"
 claimed = {
+ "C01": dict(level="model_checking",
+   text="(1) Inductive step of slicing for ranks 1-3 in wrapping 64-bit arithmetic with NO bound on extents, origins, steps or positions: the child of an arbitrary member of the view family is again a member, shares storage, and its element i is the parent's element loc+i*step; hence chains of any depth. (2) Direct runs through the public API on fresh arrays with extents <= 3 (4 thorough), steps <= 3: depth-2/3 chains, Get/Set visibility both ways, exact footprints of Set, Apply, ApplySlice, CopyFrom on every storage cell. All 8 Go element types (instantiated from the genny type list of the current tree).",
+   ref="§4 C01", note="(2) uses mathematical ints with all quantities bounded by the extents (no overflow possible); rank <= 3; C-backed arrays are covered under C03; shape extents are enumerated by forking, positions/steps/values are symbolic"),
+ "C02": dict(level="model_checking",
+   text="For every view of rank <= 3 with extents <= 3 (4 thorough) and symbolic position/step <= 3: Contiguous() is equivalent to storage adjacency of successive row-major elements; Unroll equals the row-major gather and aliases storage iff contiguous; Reshape/ReshapeFast fail exactly on size mismatch / non-contiguity, preserve row-major order and alias iff contiguous; Maximum/Minimum; ApplyFunc1/Scale/AddTo element-wise with exact frames for all contiguity combinations. Integer helpers (Product, Multiply, dotProduct, Offsets, decrement, Maximum, Argmax) against their definitions for ALL 64-bit vectors of length 1-4; IDivMod/Increment against mixed-radix arithmetic for radices <= 6.",
+   ref="§4 C02", note="ints=math for the bounded direct harnesses, bit-vectors for the helper definitions; element values symbolic (reals for float types: rounding of v*scale / v+c outside the claim)"),
  "C19": dict(level="model_checking",
    text="One inductive step (plus a 4-step direct run in the thorough tier) of the real dateGenerator from an arbitrary valid start date with year in [1,1e9], all values symbolic, compared by the solver with an independent civil-day-number reference; unsat for every obligation means the property holds for every start date in the bound and, by induction over the emitted date, for every run length.",
    ref="§4 C19", note="ints=math (no wrap-around; year bounded by 1e9 so no overflow), float64<->int conversions exact; go/ssa lowering, z3"),
